@@ -1,7 +1,8 @@
-"""C15 correspondence: aiohomekit.protocol.tlv.TLV + BLE pairing reassembly vs Model/Tlv.v.
+"""C15 correspondence: aiohomekit.protocol.tlv.TLV + BLE pairing reassembly vs Model/Tlv.v, Model/TlvObj.v.
 
-Three streams: enc (item lists), dec (byte strings, with/without expected filter), reasm
-(BLE FragmentData/FragmentLast reply scripts).  For every case the implementation result,
+Four streams: enc (item lists, in two container shapes, argument checked after the call and encoded twice),
+dec (byte strings, with/without expected filter), reasm (BLE FragmentData/FragmentLast reply scripts),
+sess (histories of encode / decode / caller-side append on ONE set of live objects in one process).  For every case the implementation result,
 the model result (extracted OCaml) and an independent reference codec are compared.
 """
 from __future__ import annotations
@@ -25,6 +26,57 @@ def impl_encode(items):
         return "err value"
     except Exception as e:  # noqa
         return "other:" + type(e).__name__
+
+
+# The caller's argument is a live Python object graph: an outer sequence of 2-item sequences whose values are
+# bytes (immutable) or bytearray (mutable, what TLV.M1..M6, decode results and SrpClient.to_byte_array hand
+# out).  The model's encoder is a function of the item list, so the implementation must (a) give the same
+# answer for every container shape of one list, (b) leave the argument as it found it, (c) give the same
+# answer when the SAME object is encoded again (retry / re-send).  memoryview values are not generated: the
+# type hints say bytes, and nothing in /repo passes one.
+def enc_shapes(idx, n):
+    a = ("list", "tuple", tuple("bytearray" for _ in range(n)))
+    b = ("tuple" if idx % 2 else "list", "list" if idx % 3 == 0 else "tuple",
+         tuple(("bytes", "bytearray")[(idx + j + (j >> 1)) % 2] if idx % 5 else "bytes" for j in range(n)))
+    return [a, b]
+
+
+def build_arg(items, shape):
+    outer, ik, vks = shape
+    mk = {"bytes": bytes, "bytearray": bytearray}
+    arg = [(list if ik == "list" else tuple)((k, mk[vk](v))) for (k, v), vk in zip(items, vks)]
+    return tuple(arg) if outer == "tuple" else arg
+
+
+def arg_snapshot(arg):
+    return [(type(it).__name__, it[0], type(it[1]).__name__, bytes(it[1])) if len(it) == 2 else ("?", len(it)) for it in arg]
+
+
+def impl_encode_obj(items, shape):
+    """-> (answer of the first call, None | (slug, text) describing a side effect on the caller's objects)"""
+    from aiohomekit.protocol.tlv import TLV
+
+    def call(arg):
+        try:
+            return "ok " + hx(TLV.encode_list(arg))
+        except ValueError:
+            return "err value"
+        except Exception as e:  # noqa
+            return "other:" + type(e).__name__
+    arg = build_arg(items, shape)
+    before = arg_snapshot(arg)
+    first = call(arg)
+    after = arg_snapshot(arg)
+    side = None
+    if len(arg) != len(items) or after != before:
+        ch = [(j, b[1], len(b[3]), len(a[3])) for j, (b, a) in enumerate(zip(before, after)) if a != b][:3]
+        side = ("argument-modified", f"encode_list changed the caller's argument (item index, type, value length "
+                f"before, after): {ch}; decode(encode(x)) can no longer equal x")
+    else:
+        second = call(arg)
+        if second != first:
+            side = ("second-call-differs", f"encoding the same object twice gives {first[:50]}... then {second[:50]}...")
+    return first, side
 
 
 def fmt_items(lst):
@@ -323,6 +375,188 @@ def oracle_reasm(replies, impl):
             f"gives {want[:80]}{lost}")
 
 
+# ---------------------------------------------------------------- sess: histories on live objects
+# A session = initial caller-owned objects (bytes / bytearray) and a history of operations on ONE store:
+#   ("E", [(k, ref), ...])   t = TLV.encode_list(items built from the live objects); t becomes a new object
+#   ("D", expected|None, ref) TLV.decode_bytearray / decode_bytes of a live object; every result VALUE object is new
+#   ("A", ref, bytes)        the caller extends a bytearray it holds (argument, encode result, decode result)
+# Outputs and the final contents of ALL objects are compared: implementation vs Model/TlvObj.v (tlv_obj_run,
+# extracted) vs ref_session (reference codec on immutable values; shares nothing with either).
+def sess_line(objs, ops):
+    toks = ["sess"] + [f"o:{k}:{hx(v)}" for k, v in objs] + ["--"]
+    for op in ops:
+        if op[0] == "E":
+            toks.append("E:" + ",".join(f"{k}@{r}" for k, r in op[1]))
+        elif op[0] == "D":
+            toks.append(f"D:{hx(bytes(op[1])) if op[1] else '-'}:{op[2]}")
+        else:
+            toks.append(f"A:{op[1]}:{hx(op[2])}")
+    return " ".join(toks)
+
+
+def sess_fmt(outs, store):
+    return " | ".join(outs) + " || " + " ".join(f"{k}:{hx(v)}" for k, v in store)
+
+
+def ref_step(store, op):
+    """store: list of [kind, bytes] (mutated in place); returns the output string of the call"""
+    if op[0] == "E":
+        items = [(k, store[r][1]) for k, r in op[1]]
+        if any(k == 255 and len(v) for k, v in items):
+            return "enc err value"
+        t = ref_encode(items)
+        store.append(["a", t])
+        return "enc ok " + hx(t)
+    if op[0] == "D":
+        items = ref_decode(store[op[2]][1], op[1] or None)
+        if items is None:
+            return "dec err parse"
+        base = len(store)
+        store.extend(["a", bytes(v)] for _, v in items)
+        return "dec ok " + (",".join(f"{k}@{base + i}" for i, (k, _) in enumerate(items)) or ".")
+    if store[op[1]][0] == "a":
+        store[op[1]][1] = store[op[1]][1] + op[2]
+        return "app 1"
+    return "app 0"
+
+
+def ref_session(objs, ops):
+    store = [[k, bytes(v)] for k, v in objs]
+    outs = [ref_step(store, op) for op in ops]
+    return sess_fmt(outs, store)
+
+
+def impl_session(objs, ops, variant=0):
+    from aiohomekit.protocol.tlv import TLV, TlvParseException
+    live = [bytes(v) if k == "b" else bytearray(v) for k, v in objs]
+    outs = []
+    for n, op in enumerate(ops):
+        try:
+            if op[0] == "E":
+                mk = tuple if (n + variant) % 2 == 0 else list
+                arg = [mk((k, live[r])) for k, r in op[1]]
+                if (n + variant) % 3 == 0:
+                    arg = tuple(arg)
+                try:
+                    t = TLV.encode_list(arg)
+                except ValueError:
+                    outs.append("enc err value")
+                    continue
+                live.append(t)
+                outs.append("enc ok " + hx(t))
+            elif op[0] == "D":
+                x = live[op[2]]
+                exp = list(op[1]) if op[1] else None
+                try:
+                    # entry point: fixed per session (both for half of the sessions each), alternating in every fourth
+                    via_bytes = not isinstance(x, bytearray) or (variant % 2 == 0 if variant % 4 != 3 else n % 2 == 0)
+                    res = TLV.decode_bytes(x, exp) if via_bytes else TLV.decode_bytearray(x, exp)
+                except TlvParseException:
+                    outs.append("dec err parse")
+                    continue
+                base = len(live)
+                live.extend(v for _, v in res)
+                outs.append("dec ok " + (",".join(f"{int(k)}@{base + i}" for i, (k, _) in enumerate(res)) or "."))
+            else:
+                # x += bs as the caller writes it: in place on a bytearray; a RESULT object that happens to be
+                # immutable bytes is rebound (the property does not say which of the two a result is)
+                if isinstance(live[op[1]], bytearray) or op[1] >= len(objs):
+                    live[op[1]] += op[2]
+                    outs.append("app 1")
+                else:
+                    outs.append("app 0")
+        except Exception as e:  # noqa
+            outs.append(f"{ {'E': 'enc', 'D': 'dec', 'A': 'app'}[op[0]] } other:{type(e).__name__}")
+            break
+    return sess_fmt(outs, [("a" if isinstance(x, bytearray) or j >= len(objs) else "b", bytes(x)) for j, x in enumerate(live)])
+
+
+def gen_sess(tier, r):
+    cases = []
+    n = 700 if tier == "quick" else 14000
+    sizes = LENS + [300, 384, 600, 1000]
+    for i in range(n):
+        objs = []
+        for j in range(r.choice([1, 2, 3, 4])):
+            ln = r.choice(sizes + [r.randrange(0, 40), r.randrange(0, 40), r.randrange(256, 1500)])
+            if i % 7 == 0 and j == 0:
+                ln = r.choice([256, 300, 384, 511, 766, 1000])       # a long value first: SRP key / certificate
+            data = bytes(r.getrandbits(8) for _ in range(ln)) if r.random() < 0.7 else bytes((3 + 7 * t) % 251 for t in range(ln))
+            objs.append((r.choice("ab") if i % 7 else "a", data))
+        store = [[k, bytes(v)] for k, v in objs]
+        roles = ["init"] * len(store)           # init | enc | dec
+        ops, last_e = [], None
+        for _ in range(r.choice([2, 3, 4, 6, 9])):
+            c = r.random()
+            encs = [x for x, ro in enumerate(roles) if ro == "enc"]
+            if c < 0.12 and last_e is not None:
+                op = last_e                                          # the same argument again (retry / re-send)
+            elif c < 0.45 or not encs:
+                pool = [x for x, ro in enumerate(roles) if ro != "enc"] or list(range(len(store)))
+                refs = [r.choice(pool) for _ in range(r.choice([1, 1, 2, 3, 4]))]
+                a = []
+                for x in refs:
+                    k = r.choice([1, 2, 3, 5, 6, 9, 10, r.randrange(255)])
+                    if a and a[-1][0] == k and r.random() < 0.85:
+                        k = (k + 1) % 255
+                    a.append((k, x))
+                if r.random() < 0.1:
+                    empt = [x for x, o in enumerate(store) if len(o[1]) == 0]
+                    a.insert(r.randrange(len(a) + 1), (255, r.choice(empt) if empt and r.random() < 0.8 else r.randrange(len(store))))
+                op = ("E", a)
+                last_e = op
+            elif c < 0.75:
+                tgt = r.choice(encs) if r.random() < 0.9 else r.randrange(len(store))
+                exp = None if r.random() < 0.7 else sorted({r.choice([1, 2, 3, 5, 6, 9, 10]) for _ in range(3)})
+                op = ("D", exp, tgt)
+            else:
+                tgt = r.randrange(len(store))
+                cur = len(store[tgt][1])
+                ln = r.choice([1, 2, 3, 255, 256, max(1, 255 - cur), max(1, 256 - cur), r.randrange(1, 300)])
+                op = ("A", tgt, bytes(r.getrandbits(8) for _ in range(ln)))
+            before = len(store)
+            ref_step(store, op)
+            roles += [{"E": "enc", "D": "dec"}.get(op[0], "x")] * (len(store) - before)
+            ops.append(op)
+        if i % 6 == 1:
+            # fixed shape: encode, decode the result, extend one decoded value in place, decode the SAME object again,
+            # encode the argument again and encode the first decode result
+            a = [(k, x) for x, k in zip(range(len(objs)), r.sample([1, 2, 3, 5, 6, 9, 10], len(objs)))]
+            t = ref_decode(ref_encode([(k, objs[x][1]) for k, x in a]), None)
+            e, base = len(objs), len(objs) + 1
+            ops = [("E", a), ("D", None, e), ("A", base + r.randrange(len(t)), bytes(r.getrandbits(8) for _ in range(r.choice([1, 5, 255, 300])))),
+                   ("D", None, e), ("E", a), ("E", [(k, base + j) for j, (k, _) in enumerate(t)])]
+        cases.append((objs, ops))
+    return cases
+
+
+def oracle_sess(objs, ops, impl, variant=0):
+    want = ref_session(objs, ops)
+    if impl == want:
+        return None
+    # smallest failing prefix of the history (a prefix is always a valid history)
+    for cut in range(1, len(ops) + 1):
+        if impl_session(objs, ops[:cut], variant) != ref_session(objs, ops[:cut]):
+            break
+    io, wo = impl_session(objs, ops[:cut], variant), ref_session(objs, ops[:cut])
+    iouts, istore = io.split(" || ")
+    wouts, wstore = wo.split(" || ")
+    il, wl = iouts.split(" | "), wouts.split(" | ")
+    if il == wl:
+        ch = [x for x, (a, b) in enumerate(zip(istore.split(" "), wstore.split(" "))) if a != b][:4]
+        nin = len(objs)
+        slug = "objects-changed:" + ("caller-argument" if any(x < nin for x in ch) else "result-object")
+        text = (f"after {cut} call(s) on live objects the outputs are right but object(s) {ch} hold other contents than the "
+                f"calls and the caller's own appends account for (objects 0..{nin - 1} are the caller's initial values)")
+    else:
+        d = next(x for x, (a, b) in enumerate(zip(il + ["?"], wl + ["?"])) if a != b)
+        slug = "call-output:" + ops[d][0] + (":repeat" if ops[d] in ops[:d] else "")
+        gi, gw = (il + ['?'])[d], (wl + ['?'])[d]
+        text = (f"call {d} ({ops[d][0]}) of a history on live objects returned {gi[:40]}... ({len(gi)} chars), the reference "
+                f"codec gives {gw[:40]}... ({len(gw)} chars) for the values the objects hold at that moment")
+    return (slug, text, cut)
+
+
 # ---------------------------------------------------------------- kernel cross-check of the extracted driver
 def coq_bytes(b):
     return "[" + "; ".join(f"{x}%N" for x in bytes(b)) + "]"
@@ -378,7 +612,8 @@ def run(ctx):
     tier, seed = ctx["tier"], ctx["seed"]
     drv = Driver(ctx["driver"])
     cov = Coverage("enc: item list distinct and non-empty; dec: distinct byte string on which at least one fragment "
-                   "was parsed or an error arose after the first byte; reasm: distinct reply script with >=1 reply")
+                   "was parsed or an error arose after the first byte; reasm: distinct reply script with >=1 reply; "
+                   "sess: distinct history of >=2 calls on one set of live objects")
     viols = []
 
     def report(stream, case_repr, impl, model, orc, payload):
@@ -396,16 +631,23 @@ def run(ctx):
     model = enc_model = drv.batch(lines)
     spec = drv.batch(["spec " + " ".join(f"{k}:{hx(v)}" for k, v in items) if all(0 <= k for k, _ in items) else "spec"
                       for items in enc_cases])
-    for items, m, sp in zip(enc_cases, model, spec):
-        impl = impl_encode(items)
-        orc = oracle_enc(items, impl)
+    for idx, (items, m, sp) in enumerate(zip(enc_cases, model, spec)):
         if m.startswith("ok") and m != sp:
             viols.append(violation("enc:model-vs-spec", "model encode differs from spec_encode (theorem tlv_canonical contradicted?)",
                                    False, case=repr(items)))
-        report("enc", [(k, hx(v)) for k, v in items], impl, m, orc, {})
-        cov.case("e" + repr(items), len(items) > 0,
-                 sample=dict(stream="enc", items=[(k, len(v)) for k, v in items], impl=impl[:40]) if cov.evaluations % 997 == 0 else None,
-                 enc_items=len(items), enc_maxlen=max([len(v) for _, v in items] + [0]), enc_result=impl.split(" ")[0])
+        for shape in enc_shapes(idx, len(items)):
+            impl, side = impl_encode_obj(items, shape)
+            orc = oracle_enc(items, impl)
+            case_repr = dict(items=[(k, hx(v)) for k, v in items], outer=shape[0], item_container=shape[1], value_kinds=list(shape[2]))
+            if orc is None and side is not None:
+                orc = side
+            report("enc", case_repr, impl, m, orc, {})
+            cov.case("e" + repr(items) + repr(shape), len(items) > 0,
+                     sample=dict(stream="enc", items=[(k, len(v)) for k, v in items], shape=[shape[0], shape[1], list(shape[2])],
+                                 impl=impl[:40]) if cov.evaluations % 997 == 0 else None,
+                     enc_items=len(items), enc_maxlen=max([len(v) for _, v in items] + [0]), enc_result=impl.split(" ")[0],
+                     enc_outer=shape[0], enc_item_container=shape[1],
+                     enc_long_value_kind="+".join(sorted({vk for (_, v), vk in zip(items, shape[2]) if len(v) > 255})) or "none")
     # ---- dec
     dec_cases = gen_dec(tier, rng(seed, "c15dec"))
     lines = [f"dec {hx(bytes(exp)) if exp else '-'} {hx(bs)}" for bs, exp in dec_cases]
@@ -433,6 +675,26 @@ def run(ctx):
         cov.case("r" + repr(replies), len(replies) >= 1,
                  sample=dict(stream="reasm", replies=[hx(x)[:40] for x in replies][:4], impl=impl[:60]) if cov.evaluations % 211 == 0 else None,
                  reasm_replies=len(replies), reasm_result=impl.split(" ")[0])
+    # ---- sess
+    se_cases = gen_sess(tier, rng(seed, "c15sess"))
+    model = drv.batch([sess_line(objs, ops) for objs, ops in se_cases])
+    for idx, ((objs, ops), m) in enumerate(zip(se_cases, model)):
+        impl = impl_session(objs, ops, variant=idx)
+        orc = oracle_sess(objs, ops, impl, idx)
+        case_repr = dict(objects=[(k, hx(v)) for k, v in objs],
+                         ops=[[op[0]] + [hx(x) if isinstance(x, bytes) else x for x in op[1:]] for op in ops])
+        if orc is not None:
+            case_repr["failing_prefix_ops"] = orc[2]
+        report("sess", case_repr, impl[:4000], m[:4000], orc[:2] if orc else None, {})
+        enc_args = [tuple(op[1]) for op in ops if op[0] == "E"]
+        long_ba = any(objs[x][0] == "a" and len(objs[x][1]) > 255 for a in enc_args for _, x in a if x < len(objs))
+        cov.case("s" + repr((objs, ops)), len(ops) >= 2,
+                 sample=dict(stream="sess", objects=[(k, len(v)) for k, v in objs],
+                             ops=[(op[0], op[1] if op[0] == "E" else op[-1] if op[0] == "D" else (op[1], len(op[2]))) for op in ops],
+                             impl=impl.split(" || ")[0][:80]) if idx % 233 == 0 else None,
+                 sess_ops=len(ops), sess_same_arg_encoded=max([enc_args.count(a) for a in enc_args] + [0]),
+                 sess_long_bytearray_encoded=long_ba, sess_op_kinds="".join(sorted({op[0] for op in ops})),
+                 sess_result="other" if "other:" in impl else "ok")
     # shrink the first decode violation for a smaller replay
     for v in viols:
         if v["payload"].get("stream") == "dec" and v["found_input"]:
